@@ -204,6 +204,18 @@ fn main() {
       let backends = if both { vec![false, true] } else { vec![uring] };
       h::sockscript::run_file(&args[2], &args[3], backends, limit);
     }
+    "subsync" => {
+      // vh subsync <behaviours.jsonl> <out.json> [--uring|--both] [--limit N] [--perturb]
+      let uring = args.iter().any(|a| a == "--uring");
+      let both = args.iter().any(|a| a == "--both");
+      let perturb = args.iter().any(|a| a == "--perturb");
+      let limit: usize = args.iter().position(|a| a == "--limit").and_then(|i| args.get(i + 1)).and_then(|s| s.parse().ok()).unwrap_or(60);
+      if let Ok(f) = std::env::var("VH_TRACE") {
+        let _ = tracing_subscriber::fmt().with_env_filter(f).with_writer(std::io::stderr).try_init();
+      }
+      let backends = if both { vec![false, true] } else { vec![uring] };
+      h::subsync::run_file(&args[2], &args[3], backends, limit, perturb);
+    }
     "hb" => {
       // vh hb <behaviours.jsonl> <out.json> [--perturb]
       let beh: Vec<h::hb::Behaviour> = h::util::read_jsonl(&args[2]);
